@@ -80,6 +80,7 @@ stats = f"≈{model} lines of model and specification, ≈{total - model} lines 
 
 t = open(os.path.join(ROOT, "tools", "DESIGN.tmpl.md")).read()
 t = t.replace("@@PROPS@@", props_md).replace("@@FINDINGS@@", f_md).replace("@@SEEDS@@", s_md).replace("@@STATS@@", stats)
+t = t.replace("@@SEEDTOTALS@@", f"{n} independently seeded breaking changes (at least two per property, none caught by the existing suite): {nd} detected by the property's quick check, {ni} with a concrete failing input")
 t = t.replace("@@NFIXED@@", str(len(fixed))).replace("@@NFINDING@@", str(len(finding)))
 open(os.path.join(ROOT, "DESIGN.md"), "w").write(t)
 print("DESIGN.md:", len(t.splitlines()), "lines;", len(fixed), "fixed,", len(finding), "findings,", n, "seeds", nd, ni)
